@@ -86,10 +86,14 @@ def setup():
         common.build_harness(cfg, bins=["dynmock"])
 
 
-def _run_config(ctx, config, cases):
-    bindir, build_s = common.build_harness(config, bins=["dynmock"])
+def _run_config(ctx, config, cases, profile="release"):
+    if profile == "release":
+        bindir, build_s = common.build_harness(config, bins=["dynmock"])
+    else:
+        # unoptimised build with overflow checks and debug assertions (what `cargo test` users run)
+        bindir, build_s = common.build_harness(config, bins=["dynmock"], profile="dev", target_name=config + "-debug")
     exe = os.path.join(bindir, "dynmock")
-    out_dir = os.path.join(ctx.out_dir, config)
+    out_dir = os.path.join(ctx.out_dir, config + ("" if profile == "release" else "-debug"))
     os.makedirs(out_dir, exist_ok=True)
     jobs = min(16, os.cpu_count() or 16)
     cmd = [exe, "run", "--prop", ctx.prop, "--cases", str(cases), "--seed", str(ctx.seed), "--jobs", str(jobs),
@@ -196,6 +200,17 @@ def run(ctx):
                             "coverage gate: no unproducible-return rejection observed (nostd-nolock)")
         if others:
             ctx.notes.append(f"{config}: discrepancies attributed to other properties (not reported here): {others}")
+
+    # the same workload on a debug build of library and harness: arithmetic overflow and debug assertions are
+    # checked there, which can change what a call does (e.g. while a panic message is being formatted)
+    if "std" in configs:
+        n_dbg = 30_000 if ctx.tier == "quick" else 600_000
+        workers, viols, summary, build_s = _run_config(ctx, "std", n_dbg, profile="dev")
+        for v in viols:
+            ctx.violation(f"dynmock:std-debug:{'+'.join(v['tags'])}:{v['at'].split(' ')[0]}", dict(v, config="std (debug build)"))
+        per_config["std-debug"] = {"cases": sum(w["cases"] for w in workers), "build_s": round(build_s, 2),
+                                   "distinct_nontrivial": summary["distinct_nontrivial"]}
+        total_eval += sum(w["cases"] for w in workers)
 
     concurrent = None
     if ctx.prop in ("C08", "C02", "C03", "C04", "C18"):
